@@ -29,7 +29,9 @@ def others(recs):
 
 
 class Trace:
-    """events of one run"""
+    """events of one run.  Besides the raw transport events, `pdu` events are reconstructed from the
+    structure of the recv calls: a recv_all operation for 8 bytes is a header read; if the next
+    operation asks for exactly (length field - 8) bytes it is that PDU's payload."""
 
     def __init__(self, lines):
         self.lines = lines
@@ -39,6 +41,9 @@ class Trace:
         self.sent_segments = [[]]    # accepted bytes, split at failed sends
         self.events = []
         pending = 0
+        op_total = 0
+        op_buf = b""
+        hdr = None                   # header waiting for its payload
         for l in lines:
             w = l.split()
             if not w:
@@ -48,35 +53,65 @@ class Trace:
                 if pending == 0:
                     self.op_starts.append(len(self.consumed))
                     pending = req
+                    op_total = req
+                    op_buf = b""
+                    if hdr is not None and op_total != struct.unpack(">I", hdr[4:8])[0] - 8:
+                        self.events.append(("pdu", hdr, False))      # header whose payload was never read
+                        hdr = None
                 if w[4] in ("-1", "-2", "-3", "-4", "eof"):
                     pending = 0
+                    if hdr is not None:
+                        self.events.append(("pdu", hdr + op_buf, False))
+                        hdr = None
+                    elif op_buf:
+                        self.events.append(("pdu", op_buf, False))
                     self.events.append(("rerr", w[4], timeout, req))
                 else:
                     n = int(w[4])
                     data = bytes.fromhex(w[5]) if len(w) > 5 else b""
                     self.consumed += data
+                    op_buf += data
                     pending -= n
                     self.events.append(("rx", data, timeout, req))
-            elif w[0] == "W":
-                if w[3] in ("-1", "-2"):
-                    self.sent_segments.append([])
-                    self.events.append(("werr", w[3]))
-                else:
-                    data = bytes.fromhex(w[4]) if len(w) > 4 else b""
-                    self.sent_segments[-1].append((int(w[1]), data))
-                    self.events.append(("tx", data, int(w[1])))
-            elif w[0] == "S":
-                self.events.append(("state", w[1]))
-            elif w[0] == "O":
-                self.events.append(("open", int(w[1]), int(w[2])))
-            elif w[0] == "C":
-                self.events.append(("close",))
-            elif w[0] == "Z":
-                self.events.append(("sleep", int(w[1])))
-            elif w[0] == "T":
-                self.events.append(("tables", l))
-            elif w[0] == "ret":
-                self.ret = int(w[1])
+                    if pending == 0:
+                        if hdr is not None:
+                            self.events.append(("pdu", hdr + op_buf, True))
+                            hdr = None
+                        elif op_total == 8:
+                            ln = struct.unpack(">I", op_buf[4:8])[0]
+                            if ln == 8:
+                                self.events.append(("pdu", op_buf, True))
+                            else:
+                                hdr = op_buf
+                        else:
+                            self.events.append(("pdu", op_buf, False))
+            else:
+                if w[0] in ("S", "O", "W") and hdr is not None:
+                    # the client reacted to the bare header (bad length / version): no payload read follows
+                    self.events.append(("pdu", hdr, False))
+                    hdr = None
+                if w[0] == "W":
+                    if w[3] in ("-1", "-2"):
+                        self.sent_segments.append([])
+                        self.events.append(("werr", w[3]))
+                    else:
+                        data = bytes.fromhex(w[4]) if len(w) > 4 else b""
+                        self.sent_segments[-1].append((int(w[1]), data))
+                        self.events.append(("tx", data, int(w[1])))
+                elif w[0] == "S":
+                    self.events.append(("state", w[1], int(w[2]) if len(w) > 2 else None, int(w[3]) if len(w) > 3 else None))
+                elif w[0] == "O":
+                    self.events.append(("open", int(w[1]), int(w[2]), int(w[3]) if len(w) > 3 else None))
+                elif w[0] == "C":
+                    self.events.append(("close",))
+                elif w[0] == "Z":
+                    self.events.append(("sleep", int(w[1])))
+                elif w[0] == "T":
+                    self.events.append(("tables", l))
+                elif w[0] == "ret":
+                    self.ret = int(w[1])
+        if hdr is not None:
+            self.events.append(("pdu", hdr, False))
 
     def sent_bytes(self):
         return [b"".join(d for _, d in seg) for seg in self.sent_segments]
@@ -278,83 +313,153 @@ def check_sent(tr, ver_mid, ver_final):
 # FSM traces
 # ------------------------------------------------------------------------------------------
 
-def check_fsm_trace(tr, init_show, refresh_cfg=None):
-    """C05 C07 C13 over a whole state-machine run.  Ghost state is rebuilt from the trace itself."""
+def check_fsm_trace(tr, init_show, final_dump_after_stop=None):
+    """C05 C07 C13 (C14 via check_sent_fsm) over a whole state-machine run.  The ghost state (last
+    acknowledged session/serial, time of the last success, reset causes, legitimate reasons to lower
+    the version) is rebuilt from the implementation's own trace."""
     fails = []
     s0 = parse_show(init_show)
     expire = s0["expire"]
-    ver = 1                        # rtr_init: highest supported version
+    ver = s0["ver"]                # version of the PDUs the client sends (checked, not trusted: see below)
     acked = None                   # (session, serial) of the last completed synchronisation
-    need_reset = True              # no data yet
+    reset_cause = "initial"        # why the next query has to be a Reset Query (None = Serial Query expected)
     last_success = None
-    now = s0["now"]
-    inbuf = b""
-    conn_first = True              # next PDU is the first of the connection
-    pending_tables = None
-    cur_tables = None
-    session_exists = False
+    conn_first = True              # the next PDU is the first of the connection
+    conn_bytes = 0                 # bytes received on this connection
+    last_eod = None
+    tables = [None, None]
+    own_before_open = None
+    others_ref = None
     sent = b""
-    state = None
-    got_eod = None
-    got_cr = None
+    may_lower = None               # a legitimate cause to lower the version has occurred: the new version
+    must_lower = None              # ... in its clean form: the version has to be lowered to this
     for ev in tr.events:
         k = ev[0]
         if k == "tables":
-            pending_tables = ev[1] if ev[1].startswith("T pfx") else pending_tables
             if ev[1].startswith("T pfx"):
-                cur_tables = [ev[1], None]
+                tables = [ev[1], None]
             else:
-                cur_tables[1] = ev[1]
+                tables[1] = ev[1]
         elif k == "open":
             now = ev[2]
+            if ev[3] is not None:
+                expire = ev[3]
             conn_first = True
-            inbuf = b""
-            if cur_tables and cur_tables[1]:
-                pf, ks = parse_dump(cur_tables[0], cur_tables[1])
+            conn_bytes = 0
+            last_eod = None
+            if tables[0] and tables[1]:
+                pf, ks = parse_dump(tables[0], tables[1])
+                oth = (others(pf), others(ks))
+                if others_ref is None:
+                    others_ref = oth
+                elif oth != others_ref:
+                    fails.append(("C07", "records learned from other sockets changed"))
                 if last_success is not None and now - last_success > expire:
                     if own(pf) or own(ks):
-                        fails.append(("C07", "at open() %d s after the last successful synchronisation (expire %d) the cache's records are still present" % (now - last_success, expire)))
-                    need_reset = True
+                        fails.append(("C07", "at open() %d s after the last successful synchronisation (expire interval %d s) the cache's records are still present" % (now - last_success, expire)))
+                    reset_cause = "expired"
                     acked = None
-        elif k == "sleep":
-            now += ev[1]
+                if acked is not None and not own(pf) and not own(ks) and own_before_open:
+                    reset_cause = "purged"         # C03: rollback failed, everything removed
         elif k == "tx":
             sent += ev[1]
             pdus, rest = P.decode_stream(sent)
             sent = rest
             for p in pdus:
-                if p["ver"] != ver and not (p["ver"] < ver):
-                    fails.append(("C13", "sent version %d above the negotiated %d" % (p["ver"], ver)))
+                if p["ver"] > ver:
+                    fails.append(("C13", "version raised from %d to %d" % (ver, p["ver"])))
+                elif p["ver"] < ver:
+                    if may_lower is None or p["ver"] != may_lower:
+                        fails.append(("C13", "version lowered from %d to %d without one of the three legitimate causes" % (ver, p["ver"])))
+                    ver = p["ver"]
+                elif must_lower is not None and must_lower < ver:
+                    fails.append(("C13", "version not lowered to %d although the cache demanded it" % must_lower))
+                may_lower = must_lower = None
                 if p["type"] == P.SERIAL_QUERY:
-                    if need_reset or acked is None:
-                        fails.append(("C05", "Serial Query sent where a Reset Query is required (no completed synchronisation since the last reset cause)"))
+                    if reset_cause is not None or acked is None:
+                        fails.append(("C05", "Serial Query sent where a Reset Query is required (%s)" % reset_cause))
                     elif (p["f16"], p["sn"]) != acked:
-                        fails.append(("C05", "Serial Query carries (%d,%d), last End of Data was %s" % (p["f16"], p["sn"], acked)))
+                        fails.append(("C05", "Serial Query carries (%d,%d), the last End of Data was %s" % (p["f16"], p["sn"], acked)))
                 elif p["type"] == P.RESET_QUERY:
-                    pass
+                    if reset_cause is None and acked is not None:
+                        fails.append(("C05", "Reset Query sent although (%d,%d) was acknowledged and nothing reset the session" % acked))
         elif k == "werr":
             sent = b""
         elif k == "rx":
-            inbuf += ev[1]
+            conn_bytes += len(ev[1])
+        elif k == "pdu":
+            raw, complete = ev[1], ev[2]
+            if len(raw) >= 8:
+                v, t = raw[0], raw[1]
+                ln = struct.unpack(">I", raw[4:8])[0]
+                if 8 <= ln <= P.MAX_PDU_LEN:
+                    if conn_first:
+                        if ver == 1 and v == 0 and t != P.ERROR:
+                            may_lower = must_lower = 0        # live downgrade on the first PDU of a connection
+                        conn_first = False
+                    if complete and t == P.EOD:
+                        last_eod = raw
+                    if complete and t == P.ERROR and struct.unpack(">H", raw[2:4])[0] == 4 and v < ver and v in (0, 1):
+                        may_lower = v                          # downgrade demanded by the cache
+                        if rtroracle_is_wellformed_error(raw):
+                            must_lower = v
+                else:
+                    conn_first = False
         elif k == "state":
-            state = ev[1]
-            if state == "ESTABLISHED":
-                # the exchange just completed: its End of Data is the last complete EOD in the input
-                pd, _v = client_parse(inbuf, ver, not conn_first)
-                eods = [p for (_, p, v) in pd if p and v is None and p["type"] == P.EOD]
-                if eods:
-                    e = eods[-1]
-                    acked = (e["f16"], struct.unpack(">I", e["raw"][8:12])[0])
-                    need_reset = False
-                    last_success = now
-                conn_first = False
-                inbuf = b""
-            elif state in ("ERROR_NO_DATA_AVAIL", "ERROR_NO_INCR_UPDATE_AVAIL"):
-                need_reset = True
+            st = ev[1]
+            if ev[3] is not None and st == "ESTABLISHED":
+                own_before_open = ev[3] > 0         # this cache had records after its last successful synchronisation
+            if st == "ESTABLISHED":
+                if last_eod is not None:
+                    acked = (struct.unpack(">H", last_eod[2:4])[0], struct.unpack(">I", last_eod[8:12])[0])
+                    reset_cause = None
+                    last_success = ev[2]
+                last_eod = None
+            elif st == "ERROR_NO_DATA_AVAIL":
+                reset_cause = "no data"
                 acked = None
-            elif state == "FAST_RECONNECT":
-                pass
+            elif st == "ERROR_NO_INCR_UPDATE_AVAIL":
+                reset_cause = "cache reset"
+                acked = None
         elif k == "rerr":
-            if ev[1] == "-2" and ev[2] > 0:
-                now += ev[2]
+            if ev[1] == "-4" and reset_cause is not None and ver > 0:
+                may_lower = ver - 1                            # hang-up while no session exists
+                if conn_bytes == 0:
+                    must_lower = ver - 1                       # ... without answering at all
+    fails += check_sent_fsm(tr)
+    return fails
+
+
+def rtroracle_is_wellformed_error(raw):
+    ln = len(raw)
+    if ln < 16:
+        return False
+    el = struct.unpack(">I", raw[8:12])[0]
+    if 16 + el > ln:
+        return False
+    tl = struct.unpack(">I", raw[12 + el:16 + el])[0]
+    return 16 + el + tl == ln
+
+
+def check_sent_fsm(tr):
+    """C14 over everything a state-machine run handed to the transport"""
+    fails = []
+    for seg_i, seg in enumerate(tr.sent_bytes()):
+        pdus, rest = P.decode_stream(seg)
+        if rest and seg_i == len(tr.sent_bytes()) - 1:
+            fails.append(("C14", "bytes handed to the transport do not form complete PDUs (%d stray bytes)" % len(rest)))
+        for p in pdus:
+            if p["len"] > P.MAX_PDU_LEN:
+                fails.append(("C14", "sent a PDU of %d bytes, larger than the client's own maximum" % p["len"]))
+            if p["type"] not in (P.SERIAL_QUERY, P.RESET_QUERY, P.ERROR):
+                fails.append(("C14", "sent a PDU of type %d" % p["type"]))
+            if p["type"] == P.ERROR:
+                if not p.get("consistent"):
+                    fails.append(("C14", "Error Report with inconsistent encapsulated/text lengths"))
+                elif p["enc"]:
+                    enc = p["enc"]
+                    if not any(tr.consumed[o:o + len(enc)] == enc for o in tr.op_starts):
+                        fails.append(("C14", "encapsulated PDU %s... is not a byte-exact prefix of any PDU as received" % enc[:12].hex()))
+                    if len(enc) >= 2 and enc[1] == P.ERROR:
+                        fails.append(("C14", "Error Report sent in reply to an Error Report"))
     return fails
